@@ -329,8 +329,56 @@ def one_off_default(ctx):
                    [], noflags), "oneoff.groups")
 
 
+def saved_by_name(ctx):
+    """several evaluators with different settings saved *by name* (the by-name directory redirected to a scratch directory),
+    the names sharing prefixes, carrying dots, version numbers and the extension; loading each name gives back what was saved
+    under that name. Saving by name writes next to the package, so the module's notion of its own location is redirected."""
+    import panoptica.utils.filepath as FP
+    tag = f"verifc19x{os.getpid()}"
+    d = VERIF / ".work" / f"c19n_{os.getpid()}"
+    shutil.rmtree(d, ignore_errors=True)
+    (d / "panoptica" / "utils").mkdir(parents=True)
+    real_file = FP.__file__
+    names = [f"{tag}_plain", f"{tag}_v1.0", f"{tag}_v1.5", f"{tag}_v1.5.final", f"{tag}.a.b", f"{tag}_ext.yaml", f"{tag}_plain2"]
+    thr = [(1, 10), (1, 4), (3, 4), (2, 3), (1, 2), (1, 3), (9, 10)]
+    inp = {"saved_by_name": names, "thresholds": [list(t) for t in thr]}
+    ctx.case(inp, True)
+    ctx.count("saved_by_name_histories")
+    try:
+        FP.__file__ = str(d / "panoptica" / "utils" / "filepath.py")
+        objs = {}
+        with quiet():
+            for n, t in zip(names, thr):
+                ev = impl.mk_evaluator(E.mk_cfg("UNMATCHED", ["IOU", "DSC"], matcher=E.naive("IOU", t)))
+                ev.save_to_config_by_name(n)
+                objs[n] = settings(ev)
+        for n in names:
+            for alias in (n, n + ".yaml" if not n.endswith(".yaml") else n[:-5]):
+                try:
+                    with quiet():
+                        back = impl.Panoptica_Evaluator.load_from_config_name(alias)
+                except Exception as e:
+                    ctx.violation(f"C19 violated: the configuration saved under the name {n!r} cannot be loaded as {alias!r}: {type(e).__name__}: {str(e)[:200]}", inp,
+                                  key={"kind": "by-name-saved"})
+                    return
+                if settings(back) != objs[n]:
+                    other = [m for m in names if m != n and settings(back) == objs[m]]
+                    ctx.violation(f"C19 violated: loading the name {alias!r} does not give back the configuration saved under {n!r}"
+                                  + (f" but the one saved under {other[0]!r}" if other else ""), inp, key={"kind": "by-name-saved"})
+                    return
+    finally:
+        FP.__file__ = real_file
+        shutil.rmtree(d, ignore_errors=True)
+        for root in (os.path.join(impl.REPO, "panoptica"),):         # nothing may be left next to the package itself
+            for dp, _, fs in os.walk(root):
+                for f in fs:
+                    if f.startswith(tag):
+                        os.remove(os.path.join(dp, f))
+
+
 def run(ctx):
     shipped(ctx)
+    saved_by_name(ctx)
     one_off_default(ctx)
     for i in range(ctx.scale(60, 700)):
         one_case(ctx, rand_eval_spec(ctx.rng), f"rand{i}")
@@ -346,5 +394,7 @@ def replay(ctx, rec):
     i = rec["input"]
     if "cfg" in i:
         one_case(ctx, (i["cfg"], i["groups"], i["global_metrics"], i["flags"]), "replay")
+    elif "saved_by_name" in i:
+        saved_by_name(ctx)
     else:
         shipped(ctx)
